@@ -27,6 +27,11 @@ FORMATS = {
     "sam": dict(buffer=("bionumpy.io.buffers.sam", "SAMBuffer"), rest="extra",
                 cols=[("name", "id"), ("flag", "int"), ("chromosome", "id"), ("position", "int"), ("mapq", "int"), ("cigar", "str"),
                       ("next_chromosome", "str"), ("next_position", "int"), ("length", "int"), ("sequence", "str"), ("quality", "str")]),
+    # VCF read with the default entry type (eight fixed columns); FORMAT and the sample columns are further cells of the line that the
+    # entry type does not name (they must survive a write-back, modified or not)
+    "vcf": dict(buffer=("bionumpy.io.vcf_buffers", "VCFBuffer"), write_offset={"position": 1},
+                cols=[("chromosome", "id"), ("position", "int"), ("id", "str"), ("ref_seq", "str"), ("alt_seq", "str"), ("quality", "str"),
+                      ("filter", "str"), ("info", "str")]),
     "gtf": dict(buffer=("bionumpy.io.delimited_buffers", "GTFBuffer"),
                 cols=[("chromosome", "id"), ("source", "str"), ("feature_type", "id"), ("start", "int"), ("stop", "int"), ("score", "str"),
                       ("strand", "strand"), ("phase", "str"), ("atributes", "str")]),
